@@ -5,7 +5,7 @@ From Coq Require Import Reals List Arith Lia Lra QArith.
 From TLV Require Import Base.Shape Base.PyList Base.Tensor Base.Ops Base.RSum Model.Descent
   Model.DescentReport Proofs.DescentProofs Proofs.DescentProofsHals Proofs.DescentProofsLink Proofs.DescentProofsOrth Proofs.DescentProofsNorm Proofs.DescentProofsNN Proofs.DescentProofsReg Proofs.DescentProofsTucker Proofs.DescentProofsCmtf Proofs.DescentProofsTkReg Proofs.DescentProofsTR Proofs.DescentProofsUnfold
   Proofs.DescentProofsSpec Proofs.DescentProofsSweeps Proofs.DescentProofsSweeps2 Proofs.DescentProofsReport Proofs.DescentProofsP2Tie Proofs.DescentProofsStatic Proofs.DescentProofsNNNorm
-  Model.DescentModes Proofs.DescentProofsModes Proofs.DescentProofsR6.
+  Model.DescentModes Proofs.DescentProofsModes Proofs.DescentProofsR6 Model.DescentLoop Proofs.DescentProofsLoop Proofs.DescentProofsCmtf2.
 Import ListNotations.
 Open Scope R_scope.
 
@@ -606,6 +606,112 @@ Theorem C07_hooi_reported_monotone_any_init : forall (X : tensor R) (rs : list n
 Proof. exact hooi_reported_monotone_any_init. Qed.
 Print Assumptions C07_hooi_reported_monotone_any_init.
 
+(* ================= round 7 ================= *)
+(* coupled_matrix_tensor_3d_factorization: EVERY update of an iteration is an exact minimiser of the coupled objective
+   ||X - [[w;A_0,..]]||^2 + ||Y - A_0 V'||^2 over its own block: the matrix part V = lstsq(A_0, Y)' (normal equations A_0'(Y - A_0 V') = 0),
+   the uncoupled modes k <> 0 (solve certificate of the CP system; the matrix part only sees factor 0); the coupled block is
+   C07_cmtf_coupled_block_minimises *)
+Theorem C07_cmtf_V_block_minimises : forall (X : tensor R) (Y : list (list R)) (w : list R) (q rank : nat) (facs : list (list (list R))) (V Z : list (list R)),
+  cmtf_V_normal X Y q rank (nth 0 facs []) V -> cmtf_obj Rops X Y w facs V q rank <= cmtf_obj Rops X Y w facs Z q rank.
+Proof. exact cmtf_V_block_minimises_obj. Qed.
+Print Assumptions C07_cmtf_V_block_minimises.
+Theorem C07_cmtf_uncoupled_block_minimises : forall (X : tensor R) (Y : list (list R)) (w : list R) (q rank : nat) (facs : list (list (list R))) (V : list (list R))
+  (k : nat) (x z : list (list R)), k <> 0%nat -> (k < length (shape X))%nat -> (k < length facs)%nat ->
+  (forall i r : nat, (i < nth k (shape X) 0)%nat -> (r < rank)%nat -> cp_cert_lhs Rops (shape X) w facs k 0 rank x i r = cp_mttkrp Rops X w facs k i r) ->
+  cmtf_obj Rops X Y w (set_nth k x facs) V q rank <= cmtf_obj Rops X Y w (set_nth k z facs) V q rank.
+Proof. exact cmtf_uncoupled_block_minimises. Qed.
+Print Assumptions C07_cmtf_uncoupled_block_minimises.
+
+(* FROM THE FIRST SWEEP TO TERMINATION: the outer loop `for it in range(n_iter_max): s = sweep s; history.append(report s); if stop(it, history): break`
+   (Model/DescentLoop.v) for ANY stopping rule and ANY reported quantity: it returns the state after m sweeps, 1 <= m <= n_iter_max (if n_iter_max >= 1),
+   with the reports of the iterates m, .., 1 as history; m is the FIRST iteration at which the rule fires (or n_iter_max) *)
+Theorem C07_loop_spec : forall (St V : Type) (step : St -> St) (report : St -> V) (stop : nat -> list V -> bool) (n : nat) (s : St),
+  exists m : nat, (m <= n)%nat /\ ((0 < n)%nat -> (0 < m)%nat) /\
+  run_loop St V step report stop n s = (Nat.iter m step s, reports St V step report m s) /\
+  (forall i : nat, (S i < m)%nat -> stop i (reports St V step report (S i) s) = false) /\
+  ((m < n)%nat -> stop (m - 1)%nat (reports St V step report m s) = true).
+Proof. exact run_loop_spec. Qed.
+Print Assumptions C07_loop_spec.
+(* the loop replayed on a tape holding the recorded reports (what the correspondence executes on the implementation's history, with the stopping rule of
+   the algorithm) stops after the same number of iterations, with the same history, and the state the real loop returns is the iterate of that index *)
+Theorem C07_loop_tape_replay : forall (St V : Type) (step : St -> St) (report : St -> V) (stop : nat -> list V -> bool) (n : nat) (s : St) (tape : list V) (d : V),
+  (forall i : nat, (1 <= i <= n)%nat -> nth (i - 1) tape d = report (Nat.iter i step s)) ->
+  let r := run_loop nat V S (fun i => nth (i - 1) tape d) stop n 0%nat in
+  fst r = length (snd (run_loop St V step report stop n s)) /\ snd r = snd (run_loop St V step report stop n s) /\
+  fst (run_loop St V step report stop n s) = Nat.iter (fst r) step s.
+Proof. exact tape_replay. Qed.
+Print Assumptions C07_loop_tape_replay.
+(* if every sweep descends at the visited states, the state the loop RETURNS is not worse than the initial one, whatever the stopping rule, and the
+   visited states form a non-increasing sequence *)
+Theorem C07_loop_final_descent : forall (St V : Type) (step : St -> St) (report : St -> V) (stop : nat -> list V -> bool) (f : St -> R) (ok : St -> Prop),
+  (forall s : St, ok s -> f (step s) <= f s) -> forall (n : nat) (s : St), run_ok St step ok n s -> f (fst (run_loop St V step report stop n s)) <= f s.
+Proof. exact loop_final_descent. Qed.
+Print Assumptions C07_loop_final_descent.
+Theorem C07_loop_visited_monotone : forall (St V : Type) (step : St -> St) (report : St -> V) (stop : nat -> list V -> bool) (f : St -> R) (ok : St -> Prop),
+  (forall s : St, ok s -> f (step s) <= f s) -> forall (n : nat) (s : St), run_ok St step ok n s ->
+  exists m : nat, (m <= n)%nat /\ ((0 < n)%nat -> (0 < m)%nat) /\ fst (run_loop St V step report stop n s) = Nat.iter m step s /\
+  length (snd (run_loop St V step report stop n s)) = m /\ forall i j : nat, (i <= j)%nat -> (j <= m)%nat -> f (Nat.iter j step s) <= f (Nat.iter i step s).
+Proof. exact loop_visited_monotone. Qed.
+Print Assumptions C07_loop_visited_monotone.
+(* the RECORDED history (newest first) of a loop whose reported quantity descends with every sweep: every entry <= every older entry <= the initial value *)
+Theorem C07_loop_history_nonincreasing : forall (St : Type) (step : St -> St) (report : St -> R) (stop : nat -> list R -> bool) (ok : St -> Prop),
+  (forall s : St, ok s -> report (step s) <= report s) -> forall (n : nat) (s : St), run_ok St step ok n s ->
+  let h := snd (run_loop St R step report stop n s) in
+  (forall i j : nat, (i <= j)%nat -> (j < length h)%nat -> nth i h 0 <= nth j h 0) /\ (forall i : nat, (i < length h)%nat -> nth i h 0 <= report s).
+Proof. exact loop_history_nonincreasing. Qed.
+Print Assumptions C07_loop_history_nonincreasing.
+
+(* CPRegressor.fit / TuckerRegressor.fit END TO END (scalar responses): the weights the fit returns - whatever its stopping rule, which looks at the norms of
+   the weight tensor, decides - have a ridge objective not above the one of the initial weights (the rule of the code is regressor_stop, Model/DescentLoop.v;
+   the theorem holds for every rule and every recorded quantity) *)
+Theorem C07_cpreg_fit_descent : forall (Xsl : list (tensor R)) (ysl : list R) (sh : list nat) (w : list R) (rank : nat) (reg : R)
+  (slv : list (list (list R)) -> nat -> list (list R)) (V : Type) (report : list (list (list R)) -> V) (stop : nat -> list V -> bool),
+  0 <= reg -> forall (modes : list nat) (facs : list (list (list R))) (n : nat),
+  run_ok (list (list (list R))) (cpreg_sweep slv modes) (cpreg_sweep_ok Xsl ysl sh w rank reg slv modes) n facs ->
+  cpreg_obj_all Xsl ysl sh w rank reg (fst (run_loop (list (list (list R))) V (cpreg_sweep slv modes) report stop n facs)) <= cpreg_obj_all Xsl ysl sh w rank reg facs.
+Proof. exact cpreg_fit_descent. Qed.
+Print Assumptions C07_cpreg_fit_descent.
+Theorem C07_tkreg_fit_descent : forall (Xsl : list (tensor R)) (ysl : list R) (sh rs : list nat) (reg : R)
+  (slvF : list R -> list (list (list R)) -> nat -> list (list R)) (slvG : list R -> list (list (list R)) -> list R)
+  (V : Type) (report : tkreg_state -> V) (stop : nat -> list V -> bool),
+  0 <= reg -> forall (bs : list (option nat)) (st : tkreg_state) (n : nat),
+  run_ok tkreg_state (tkreg_sweep slvF slvG bs) (tkreg_sweep_ok Xsl ysl sh rs reg slvF slvG bs) n st ->
+  tkreg_obj_all Xsl ysl sh rs reg (fst (run_loop tkreg_state V (tkreg_sweep slvF slvG bs) report stop n st)) <= tkreg_obj_all Xsl ysl sh rs reg st.
+Proof. exact tkreg_fit_descent. Qed.
+Print Assumptions C07_tkreg_fit_descent.
+
+(* the LIST OF ERRORS the decompositions return (newest first), under any stopping rule: parafac with or without line search (l2_reg = 0), CMTF,
+   tensor_ring_als, PARAFAC2 with or without line search *)
+Theorem C07_cp_loop_reported_nonincreasing : forall (X : tensor R) (w : list R) (rank : nat) (solve : list (list R) -> list (list R) -> list (list R)) (modes : list nat)
+  (jump : list (list (list R)) -> list (list (list R)) -> list (list (list R))) (stop : nat -> list R -> bool) (facs : list (list (list R))) (n : nat),
+  run_ok (list (list (list R))) (cp_ls_iter X w rank solve modes jump) (sweep_ok X w 0 rank solve modes) n facs ->
+  let h := snd (run_loop (list (list (list R))) R (cp_ls_iter X w rank solve modes jump) (cp_rel_err X w rank) stop n facs) in
+  (forall i j : nat, (i <= j)%nat -> (j < length h)%nat -> nth i h 0 <= nth j h 0) /\ (forall i : nat, (i < length h)%nat -> nth i h 0 <= cp_rel_err X w rank facs).
+Proof. exact cp_loop_reported_nonincreasing. Qed.
+Print Assumptions C07_cp_loop_reported_nonincreasing.
+Theorem C07_cmtf_loop_reported_nonincreasing : forall (X : tensor R) (Y : list (list R)) (w : list R) (q rank : nat)
+  (lsV : list (list (list R)) -> list (list R) -> list (list R)) (solve : list (list R) -> list (list R) -> list (list R))
+  (lsA : list (list (list R)) -> list (list R) -> list (list R)) (modes : list nat) (stop : nat -> list R -> bool) (st : cmtf_state) (n : nat),
+  run_ok cmtf_state (cmtf_iter X w rank lsV solve lsA modes) (cmtf_iter_ok X Y w q rank lsV solve lsA modes) n st ->
+  let h := snd (run_loop cmtf_state R (cmtf_iter X w rank lsV solve lsA modes) (cmtf_f X Y w q rank) stop n st) in
+  (forall i j : nat, (i <= j)%nat -> (j < length h)%nat -> nth i h 0 <= nth j h 0) /\ (forall i : nat, (i < length h)%nat -> nth i h 0 <= cmtf_f X Y w q rank st).
+Proof. exact cmtf_loop_reported_nonincreasing. Qed.
+Print Assumptions C07_cmtf_loop_reported_nonincreasing.
+Theorem C07_tr_loop_reported_nonincreasing : forall (X : tensor R) (lsq : list (tensor R) -> nat -> tensor R) (dims : list nat) (stop : nat -> list R -> bool)
+  (cs : list (tensor R)) (n : nat), run_ok (list (tensor R)) (tr_sweep lsq dims) (tr_sweep_ok X lsq dims) n cs ->
+  let h := snd (run_loop (list (tensor R)) R (tr_sweep lsq dims) (fun c => rel_err (normsq X) (tr_sqerr Rops X c)) stop n cs) in
+  (forall i j : nat, (i <= j)%nat -> (j < length h)%nat -> nth i h 0 <= nth j h 0) /\
+  (forall i : nat, (i < length h)%nat -> nth i h 0 <= rel_err (normsq X) (tr_sqerr Rops X cs)).
+Proof. exact tr_loop_reported_nonincreasing. Qed.
+Print Assumptions C07_tr_loop_reported_nonincreasing.
+Theorem C07_parafac2_loop_reported_nonincreasing : forall (I : nat) (J : nat -> nat) (R' K : nat) (X : nat -> fmat) (Th : Type) (Mof proj : Th -> nat -> fmat)
+  (cpstep : (nat -> fmat) -> Th -> Th) (normX2 : R) (jump : p2_state Th -> p2_state Th -> p2_state Th) (stop : nat -> list R -> bool) (st : p2_state Th) (n : nat),
+  run_ok (p2_state Th) (ls_step (p2_state Th) (p2_rel_err I J R' K X Th Mof normX2) (p2_iter Th proj cpstep) jump) (p2_iter_ok I J R' K X Th Mof proj cpstep) n st ->
+  let h := snd (run_loop (p2_state Th) R (ls_step (p2_state Th) (p2_rel_err I J R' K X Th Mof normX2) (p2_iter Th proj cpstep) jump) (p2_rel_err I J R' K X Th Mof normX2) stop n st) in
+  (forall i j : nat, (i <= j)%nat -> (j < length h)%nat -> nth i h 0 <= nth j h 0) /\ (forall i : nat, (i < length h)%nat -> nth i h 0 <= p2_rel_err I J R' K X Th Mof normX2 st).
+Proof. exact p2_loop_reported_nonincreasing. Qed.
+Print Assumptions C07_parafac2_loop_reported_nonincreasing.
+
 (* PENALTIES.  What the blocks solve exactly, and what therefore descends, is the PENALISED objective: C07_cp_sweep_descent / C07_cp_history_monotone
    (||X-[[w;A..]]||^2 + l2_reg sum_j ||A_j diag w||^2) and C07_nn_sweep_descent / C07_nn_history_monotone (||X-[[w;A..]]||^2/2 + sum_j sparsity_j sum(A_j)).
    The algorithms REPORT the unpenalised reconstruction error, which is then NOT monotone: blocks that satisfy their contract, lower the
@@ -906,4 +1012,25 @@ Proof.
       * intros i j Hij Hj. destruct i as [|[|i]]; destruct j as [|[|j]]; try lia; lra.
     + vm_compute. lra.
   - vm_compute. lra.
+Qed.
+
+(* round 7: the loop with the stopping rules of the code is executable (exact rationals): the regressors' rule `it > 1 and |a-b|/a <= tol` fires at the
+   fourth iteration on the recorded norms 1, 2, 2.1, 2.11, 2.111 with tol = 1/100, parafac's `it >= 1 and |b-a| < tol` at the fifth; tol = 0 switches parafac's
+   test off (n_iter_max iterations).  And the hypotheses of C07_loop_final_descent / C07_loop_history_nonincreasing are satisfiable with a rule that fires:
+   halving a non-negative number, stop as soon as the newest value is below 1: from 8 the loop returns 1/2 after 4 of 10 iterations *)
+Example C07_loop_rules_nonvacuous :
+  tape_iters Qops (rule_of Qops 5 false (1#100)) 10 [1#1; 2#1; 21#10; 211#100; 2111#1000]%Q = 4%nat /\
+  tape_iters Qops (rule_of Qops 0 true (1#100)) 10 [1#1; 2#1; 21#10; 211#100; 2111#1000]%Q = 5%nat /\
+  tape_iters Qops (rule_of Qops 0 true 0%Q) 5 [1#1; 2#1; 21#10; 211#100; 2111#1000]%Q = 5%nat /\
+  tape_iters Qops (rule_of Qops 4 false (1#10)) 10 [4#1; 2#1; 19#10; 18#10]%Q = 3%nat.
+Proof. vm_compute. repeat split; reflexivity. Qed.
+Example C07_loop_nonvacuous :
+  let step := fun x : R => x / 2 in let ok := fun x : R => 0 <= x in
+  (forall s : R, ok s -> step s <= s) /\ run_ok R step ok 10 8 /\
+  (exists m : nat, (m <= 10)%nat /\ (0 < m)%nat /\ fst (run_loop R R step (fun x => x) (fun _ h => match h with a :: _ => if Rlt_dec a 1 then true else false | [] => false end) 10 8) = Nat.iter m step 8).
+Proof.
+  cbv zeta. split; [intros s Hs; lra|]. split.
+  - intros i _. induction i as [|i IH]; simpl; lra.
+  - destruct (C07_loop_spec R R (fun x : R => x / 2) (fun x => x) (fun _ h => match h with a :: _ => if Rlt_dec a 1 then true else false | [] => false end) 10 8)
+      as (m & Hm & Hp & Hl & _). exists m. rewrite Hl. repeat split; [exact Hm | apply Hp; lia].
 Qed.
